@@ -328,6 +328,9 @@ entry("pair_flatten", ": \" f", 1, 0, m_ident, needs="num", out="num", keeps=("i
 entry("nested_inf_flatten", "ƛ Þ∞ + ; f", 1, 0, lambda s: (next(iter([x])) + i + 1 for x in itertools.islice(s, 1) for i in itertools.count()),
       needs="num", out="num", first_only=True)
 entry("wrap_head", "w h", 1, 0, m_ident, needs="any", out="same", keeps=("inj", "consec"))
+# a reverse of the infinite list that is created but never demanded
+entry("bifurcate_drop", "Ḃ _", 1, 1, m_ident, needs="any", out="same", keeps=("inj", "consec"))
+entry("mirror", "m", 1, 1, m_ident, needs="any", out="same", keeps=("inj", "consec"))
 # transformations that can only ever produce max_n items from this source: the LAST available item must be reachable
 # without looking for one more (asking for more than max_n items is a legitimate hang and is never demanded)
 entry("filter_le5", "λ5≤;F", 1, 0, m_filter(lambda x: x <= 5), needs="consec", out="num", first_only=True, last_only=True, max_n=5)
@@ -472,7 +475,7 @@ class C14(core.Check):
         "density-sensitive transformations (filters, uniquify, remove, group) are only placed where the input stream "
         "keeps the property their bound needs",
     ]
-    rule = ("one run = a pipeline of 1-3 catalogued transformations (88 entries) applied by transpiled program text to an "
+    rule = ("one run = a pipeline of 1-3 catalogued transformations (90 entries) applied by transpiled program text to an "
             "instrumented infinite source, plus a demand schedule (index / first-n / stepping / resumption / two "
             "pipelines over `:`-copies pulled alternately / abandonment), n <= 40. distinct = distinct (pipeline(s), "
             "demand pattern, n); non-trivial = every run (each is judged on termination, pull bound and values).")
@@ -505,7 +508,7 @@ class C14(core.Check):
         rs = sub_rng(seed, self.id, run, "schedule")
         maxlen = rw.choice([1, 2, 3, 3])
         mode = rs.choice(["index", "firstn", "step", "resume", "two", "abandon", "index", "step", "elem_i", "slice_i",
-                          "forloop", "head_extract"])
+                          "forloop", "head_extract", "elem_i_swapped"])
         n = rs.choice([1, 2, 3, 5, 8, 13, 20, 30, 40]) if rs.random() < 0.5 else rs.randint(1, 40)
         if rs.random() < 0.08:
             n = rs.choice([17, 33, 64, 65, 101, 128, 130])  # size thresholds beyond the statement's n <= 40 (same bound)
@@ -530,7 +533,7 @@ class C14(core.Check):
         mode, n = case["mode"], case["n"]
         if not A or n < 0 or (n == 0 and mode not in ("firstn", "slice_i")) or not valid(A) or (B and not valid(B)):
             return dict(verdict=DISCARD, sig="invalid-chain", log=[], steps=0, hist=None)
-        if n > 40 and (mode not in ("index", "firstn", "elem_i", "slice_i", "step", "resume")
+        if n > 40 and (mode not in ("index", "firstn", "elem_i", "elem_i_swapped", "slice_i", "step", "resume")
                        or any(CAT[x]["out"] in ("list", "mixed") or x in ("flatten", "map_sum") for x in A)):
             n = 40  # threshold sizes only where the work per item does not itself grow with n
         caps = [CAT[x]["max_n"] for x in A if CAT[x]["max_n"]]
@@ -592,6 +595,8 @@ class C14(core.Check):
                     prog = prog + f" {n} Ẏ"
                 elif mode == "elem_i":
                     prog = prog + f" {n - 1} i"                      # the index element with a number
+                elif mode == "elem_i_swapped":
+                    prog = prog + f" {n - 1} $ i"                    # ... with the number BELOW the list (b[a] overload)
                 elif mode == "slice_i":
                     prog = prog + f" ⟨0|{n}⟩ i"                      # the index element with a [start, stop] list
                 elif mode == "forloop":
@@ -619,10 +624,10 @@ class C14(core.Check):
                     gotB = item_list(resB, min(nb, 8))
                 else:
                     res = w.stack[-1] if w.stack else None
-                    if mode in ("elem_i", "slice_i", "forloop", "head_extract"):
+                    if mode in ("elem_i", "elem_i_swapped", "slice_i", "forloop", "head_extract"):
                         pulled = pulls[0]
                         k_ = min(n, 12) if mode == "head_extract" else n
-                        if mode == "elem_i":
+                        if mode in ("elem_i", "elem_i_swapped"):
                             got_items, want_items = [tm(res)], [norm_model(x) for x in model_of(A, n)][-1:]
                         elif mode == "slice_i":
                             if isinstance(res, LL):
